@@ -70,9 +70,10 @@ K_EN2 = "pipeline.charge_collection.m2.enabled"
 K_RT = "observation.readout.times"
 KEYS = {"inc": K_INC, "a": K_A, "T": K_T, "lst": K_LST, "en2": K_EN2, "rt": K_RT}
 PKS = ("mem", "lst", "dct", "both")
+XPKS = ("mat", "arr")          # list argument given as a nested list / as an array (reduced set of spaces)
 PRIORS = ("fresh", "memory", "filled", "both")
 READOUTS = ("1", "2d", "2nd")
-DET_OF = {"mem": "ccd", "lst": "cmos", "dct": "mkid", "both": "apd"}
+DET_OF = {"mem": "ccd", "lst": "cmos", "dct": "mkid", "both": "apd", "mat": "ccd", "arr": "cmos"}
 
 
 def _s():
@@ -110,6 +111,19 @@ def make_objects(pk, prior, bake=None):
         margs["lst"] = [5.0] if pk == "lst" else [5.0, 6.0]
         if c.get("lst") is not None:
             margs["lst"] = [float(x) for x in c["lst"]]
+            if isinstance(c["lst"], np.ndarray):        # (a calibration hands a vector variable over as an array)
+                margs["lst"] = np.array(margs["lst"])
+    if pk == "mat":
+        margs["lst"] = [[5.0, 6.0], [7.0, 8.0]]
+        if c.get("lst") is not None:
+            # (ParameterValues hands the rows of a swept matrix over as tuples: same representation in the reference)
+            margs["lst"] = [tuple(float(x) for x in row) for row in c["lst"]]
+    if pk == "arr":
+        margs["lst"] = np.array([5.0, 6.0])
+        if c.get("lst") is not None:                    # a swept value arrives as the list that was declared
+            margs["lst"] = [float(x) for x in c["lst"]]
+            if isinstance(c["lst"], np.ndarray):
+                margs["lst"] = np.array(margs["lst"])
     if pk in ("dct", "both"):
         margs["dct"] = {"n": 2, "log": [0.5]} if pk == "dct" else {"n": 1}
     pipe = mk.pipeline({
@@ -167,6 +181,8 @@ def space_def(space):
         return "sequential", [("inc", [1.0 + s, 2.0 + s]), ("en2", [True, False])]
     if space == "seqlst":      # a list-valued argument (which the model mutates in place) next to a scalar one
         return "sequential", [("inc", [1.0 + s, 2.0 + s, 3.0 + s]), ("lst", [[7.0, 8.0 + s], [9.0, 10.0]])]
+    if space == "seqmat":      # the same with a nested list (the model changes an inner row in place)
+        return "sequential", [("inc", [1.0 + s, 2.0 + s, 3.0 + s]), ("lst", [[[7.0, 8.0 + s], [9.0, 1.0]], [[1.0, 4.0], [2.0, 3.0]]])]
     raise KeyError(space)
 
 
@@ -225,6 +241,18 @@ def enumerate_cases(tier, seed):
                         for var in variants(space):
                             cases.append({"part": "obs", "pk": pk, "prior": prior, "ro": ro, "space": space, "exec": ex,
                                           "variant": var})
+    # nested-list / array arguments: sequential sweep next to a scalar parameter, and a plain sweep of the scalar
+    for pk in XPKS:
+        for prior in (("fresh", "both") if thorough else ("fresh",)):
+            for ro in ("1", "2nd"):
+                for space in (("seqmat", "inc3") if pk == "mat" else ("seqlst", "inc3")):
+                    for ex in ("seq", "dask"):
+                        for var in (["id"], ["rev"]) if space != "inc3" else (["perm", [0, 1, 2]], ["perm", [2, 0, 1]]):
+                            cases.append({"part": "obs", "pk": pk, "prior": prior, "ro": ro, "space": space, "exec": ex,
+                                          "variant": var})
+    # calibration with a VECTOR variable (the model receives a slice of the decision vector) and two processors
+    for pk in ("both", "arr"):
+        cases.append({"part": "calin", "pk": pk, "prior": "fresh", "vector": True})
     for pk in PKS:
         for prior in (PRIORS if thorough else ("fresh", "both")):
             for order in itertools.permutations(range(3)):
@@ -241,8 +269,8 @@ def enumerate_cases(tier, seed):
 def expected_size(tier, seed):
     nvar = 15 + 3 * 4
     if tier == "thorough":
-        return 4 * 4 * 3 * 2 * (nvar + 4) + 2 * 4 * 3 * 2 * 4 + 4 * 4 * 1 * 2 * 2 + 4 * 4 * 6 + 16 + 16
-    return 2 * 2 * 2 * 2 * (nvar + 4) + 2 * 2 * 2 * 2 * 4 + 2 * 2 * 1 * 2 * 2 + 4 * 2 * 6 + 1 + 4
+        return 4 * 4 * 3 * 2 * (nvar + 4) + 2 * 4 * 3 * 2 * 4 + 4 * 4 * 1 * 2 * 2 + 4 * 4 * 6 + 16 + 16 + 64 + 2
+    return 2 * 2 * 2 * 2 * (nvar + 4) + 2 * 2 * 2 * 2 * 4 + 2 * 2 * 1 * 2 * 2 + 4 * 2 * 6 + 1 + 4 + 32 + 2
 
 
 # ---------------------------------------------------------------- the check
@@ -524,8 +552,10 @@ def run_calin(case):
             np.save(fn, t)
             targets.append(t)
             files.append(fn)
-        cal = calib.calibration(files, [ParameterValues(key=K_INC, values="_", boundaries=(0.0, 10.0)),
-                                        ParameterValues(key=K_A, values="_", boundaries=(0.0, 100.0))],
+        second = ParameterValues(key=K_A, values="_", boundaries=(0.0, 100.0))
+        if case.get("vector"):
+            second = ParameterValues(key=K_LST, values=["_", "_"], boundaries=(0.0, 100.0))
+        cal = calib.calibration(files, [ParameterValues(key=K_INC, values="_", boundaries=(0.0, 10.0)), second],
                                 fit_range=(0, ROWS, 0, COLS), pygmo_seed=1 + s, population_size=8, generations=1,
                                 result_input_arguments=[ParameterValues(key=K_T, values=list(temps))])
         det, pipe = make_objects(pk, prior)
@@ -537,11 +567,14 @@ def run_calin(case):
             if d:
                 bad("caller-changed", f"building the problem changed the caller's objects: {snapshot.fmt(d)}",
                     where=_where(d[0][0]), stage="build")
-            for dv in ([1.0 + s, 10.0], [2.0 + s, 20.0]):
+            for dv in ([1.0 + s, 10.0, 30.0], [2.0 + s, 20.0, 40.0]) if case.get("vector") else ([1.0 + s, 10.0], [2.0 + s, 20.0]):
                 got = float(problem.fitness(np.array(dv, dtype=float))[0])
                 want = 0.0
                 for t, tgt in zip(temps, targets):
-                    ref = standalone(pk, prior, "1", {"inc": dv[0], "a": dv[1], "T": t}, readout=Readout())
+                    bake = {"inc": dv[0], "a": dv[1], "T": t}
+                    if case.get("vector"):          # the model receives the vector as an array
+                        bake = {"inc": dv[0], "T": t, "lst": np.array(dv[1:], dtype=float)}
+                    ref = standalone(pk, prior, "1", bake, readout=Readout())
                     want += float(sum_of_abs_residuals(simulated=ref["pixel"][0], target=tgt, weighting=np.ones_like(tgt)))
                 fits.append(want)
                 if got != want:
@@ -555,7 +588,7 @@ def run_calin(case):
             bad("caller-changed", f"the caller's objects changed: {snapshot.fmt(d)}", where=_where(d[0][0]), stage="fitness")
     finally:
         shutil.rmtree(tmp, ignore_errors=True)
-    return {"viol": viol, "sig": cfgx.sig(["calin", pk, prior, fits]), "nontrivial": len(fits) >= 2, "n": max(1, len(fits)),
+    return {"viol": viol, "sig": cfgx.sig(["calin", pk, prior, fits, bool(case.get("vector"))]), "nontrivial": len(fits) >= 2, "n": max(1, len(fits)),
             "outcome": {"fitness": fits}}
 
 
